@@ -1,5 +1,6 @@
 //! uec-harness: correspondence harness between /repo's crates and the Lean models.
 mod driver;
+mod fam_builder;
 mod fam_plushy;
 mod fam_push;
 mod fam_sel;
@@ -45,6 +46,8 @@ fn main() {
         "plushy" => fam_plushy::run(&cfg),
         "push-instr" => fam_push::run_instr(&cfg),
         "push-run" => fam_push::run_run(&cfg),
+        "builder" => fam_builder::run(&cfg),
+        "builder-probes" => fam_builder::run_probes(&cfg),
         f => { eprintln!("unknown family {f}"); std::process::exit(2) }
     };
     let js = serde_json::to_string_pretty(&rep.to_json()).unwrap();
